@@ -88,9 +88,31 @@ func sendN(w *world.World, from, to string, rel bool, n int64, fee currency.Coin
 	}}
 }
 
+// freshN: a zero-value, zero-fee transfer / data transaction from an account that has NO state node
+// yet (never funded, never transacted) with an absolute nonce and fixed time.
+func freshN(w *world.World, who string, n int64, typ int) chainsim.Action {
+	name := fmt.Sprintf("fresh-send(%s,nonce=%d)", who, n)
+	if typ == transaction.TxnTypeData {
+		name = fmt.Sprintf("fresh-data(%s,nonce=%d)", who, n)
+	}
+	return chainsim.Action{Name: name, Build: func(x *chainsim.Ctx) *world.TxnSpec {
+		f := w.Actors[who]
+		return &world.TxnSpec{From: f, To: w.Actors["c1"].ID, Type: typ, Value: 0, Fee: 0, Nonce: n, Time: common.Timestamp(1700000000), Data: "d"}
+	}}
+}
+
 func c03(run *ev.Run) {
 	w := world.New(world.Options{})
+	for _, n := range []string{"fresh0", "fresh1"} { // key pairs without any genesis state
+		a := world.DetKey(n)
+		w.Actors[n] = a
+		w.ByID[a.ID] = a
+	}
 	var acts []chainsim.Action
+	for _, n := range []int64{1, 2, 3, 0, -1, 7} {
+		acts = append(acts, freshN(w, "fresh0", n, transaction.TxnTypeSend))
+	}
+	acts = append(acts, freshN(w, "fresh1", 2, transaction.TxnTypeData), freshN(w, "fresh1", 1, transaction.TxnTypeData))
 	for _, from := range []string{"c0", "c1"} {
 		to := map[string]string{"c0": "c1", "c1": "c0"}[from]
 		for _, n := range []int64{2, 3, 4} { // absolute nonces: repeating the action = replaying the signed txn
